@@ -108,6 +108,12 @@ func c19Build(cfg c19Cfg) *restful.Container {
 	// registered PUT before GET: the Allow header of a 405 lists them in this order
 	ws.Route(ws.PUT("/other/{name}").If(cond).To(echo("other-put")))
 	ws.Route(ws.GET("/other/{name}").If(cond).To(echo("other")))
+	// a route function that panics; the container recovers with its default recover handler
+	c.DoNotRecover(false)
+	ws.Route(ws.GET("/boom/{why}").To(func(req *restful.Request, resp *restful.Response) {
+		pt("handler.enter")
+		panic("boom-" + req.PathParameter("why") + "-" + fmt.Sprint(req.Attribute("who")))
+	}))
 	// templates beyond literals and plain variables: a regular expression, a custom verb (CurlyRouter
 	// documents it; RouterJSR311 treats the text literally), a tail wildcard
 	ws.Route(ws.GET("/re/{n:[0-9]+}").To(echo("re")))
@@ -174,6 +180,8 @@ func c19Q() []h.Req {
 		{Method: "GET", Segs: []string{"api", "re", "42"}, Hdr: [][2]string{{"X-Who", "kim"}}},
 		{Method: "GET", Segs: []string{"api", "verb", "7:go"}, Hdr: [][2]string{{"X-Who", "lou"}}},
 		{Method: "GET", Segs: []string{"api", "files", "a", "b.txt"}, Hdr: [][2]string{{"X-Who", "max"}}},
+		{Method: "GET", Segs: []string{"api", "boom", "one"}, Hdr: [][2]string{{"X-Who", "nat"}}},
+		{Method: "GET", Segs: []string{"api", "boom", "two"}, Hdr: [][2]string{{"X-Who", "oz"}}},
 	}
 }
 
@@ -203,6 +211,13 @@ func c19Key(rec *h.Rec) string {
 			}
 		} else {
 			dec = "<bad zlib: " + err.Error() + ">"
+		}
+	}
+	if rec.Code == 500 {
+		// the default recover handler appends a stack trace whose frames depend on who called the
+		// container: the first line (which names the panic value) is what is compared
+		if i := strings.IndexAny(dec, "\r\n"); i >= 0 {
+			dec = dec[:i]
 		}
 	}
 	var keys []string
@@ -450,7 +465,7 @@ func checkC19(run *h.Run) {
 	run.Cov["distinct_nontrivial"] = states
 	run.Cov["distinct_outcomes"] = outcomes.Len()
 	run.Cov["exhaustive"] = true
-	run.Cov["rule"] = fmt.Sprintf("E2: configurations {plain, 3 container + service + route filters, CORS with computed methods, OPTIONS filter, encoding with bounded(1) provider} x {CurlyRouter, RouterJSR311} x entry {Dispatch, ServeHTTP} x trace {off, on}: every sequence over the request set Q (%d requests: two GETs on one template, POST entity, 404, 405, CORS preflight, a handler that dispatches a nested request, a second template with other methods incl. its preflight and 405, a second service, a plain handler behind HandleWithFilter, an entity negotiated between XML and JSON under two Accept headers that differ only in letter case and once as XML, routes with a regular-expression variable, a custom verb and a tail wildcard) of length <= %d on one container, plus the 1000-fold repetition of each request; the last response (status, all headers, decoded body with echoed parameters / attribute / selected route) must equal the response on a fresh container with trace off. E3 (instrumented): every pair (thorough: also triples) of Q concurrently, all schedules within the preemption bound, same oracle per request, happens-before race detection; then the free-running -race pass. Every history is non-trivial.", len(q), depth)
+	run.Cov["rule"] = fmt.Sprintf("E2: configurations {plain, 3 container + service + route filters, CORS with computed methods, OPTIONS filter, encoding with bounded(1) provider} x {CurlyRouter, RouterJSR311} x entry {Dispatch, ServeHTTP} x trace {off, on}: every sequence over the request set Q (%d requests: two GETs on one template, POST entity, 404, 405, CORS preflight, a handler that dispatches a nested request, a second template with other methods incl. its preflight and 405, a second service, a plain handler behind HandleWithFilter, an entity negotiated between XML and JSON under two Accept headers that differ only in letter case and once as XML, routes with a regular-expression variable, a custom verb and a tail wildcard, two requests whose route function panics (default recover handler)) of length <= %d on one container, plus the 1000-fold repetition of each request; the last response (status, all headers, decoded body with echoed parameters / attribute / selected route) must equal the response on a fresh container with trace off. E3 (instrumented): every pair (thorough: also triples) of Q concurrently, all schedules within the preemption bound, same oracle per request, happens-before race detection; then the free-running -race pass. Every history is non-trivial.", len(q), depth)
 	run.Assume = []string{"every history starts from the same package-level state (restored between histories)", "differential: the fresh-container response is the reference; handlers also self-check that their own view does not change while they run"}
 	if f := e3Part["C19"]; f != nil {
 		f(run)
